@@ -211,6 +211,19 @@ class Analyzer:
             return self.new_atom(e, min(a.lo, b.lo), max(a.hi, b.hi), kind='select', cond=c, a=a, b=b)
         if op.startswith('call:'):
             return self.call(e, op[5:])
+        if op == 'app':
+            # application of a math helper: an atom; its range is taken from the ideal function
+            # (formula mode, assumptions A-cbrt / A-elem), its arguments are kept for the caller
+            from .apps import app_name
+            name = app_name(e)
+            args = [self.ev(x) for x in e.args[1:]]
+            a = args[0]
+            if name == 'cbrtf':
+                f = lambda v: math.copysign(abs(float(v)) ** (1.0 / 3.0), float(v))
+                lo, hi = fr(f(a.lo)) * (1 - Fr(1, 10 ** 6)) - Fr(1, 10 ** 9), fr(f(a.hi)) * (1 + Fr(1, 10 ** 6)) + Fr(1, 10 ** 9)
+                if a.lo < 0: lo = fr(f(a.lo)) * (1 + Fr(1, 10 ** 6)) - Fr(1, 10 ** 9)
+                return self.new_atom(e, lo, hi, kind='app', name=name, args=args, argnodes=e.args[1:])
+            raise Unsupported(f"application of {name} in the affine/error analysis")
         if op == 'cast:bits':
             raise Unsupported('bit reinterpretation in numeric analysis')
         if op in ('ishr', 'ishl', 'idiv', 'irem', 'iand', 'ior', 'imin', 'imax'):
